@@ -1,7 +1,7 @@
 (* C03 -- Verilog write -> read round trip.  Statements only; proofs in Proofs/VerilogProofs.v. *)
 From CG Require Import Verilog.ExprParse.
 From stdpp Require Import strings gmap sets.
-From CG Require Import Types Sem Cases Model.Lint Api Verilog.Ast Verilog.Read Verilog.Write Proofs.VerilogProofs.
+From CG Require Import Types Sem Cases Model.Lint Api Verilog.Ast Verilog.Read Verilog.Write Proofs.VerilogProofs Proofs.VerilogReadProofs.
 Open Scope string_scope.
 
 (* well-formed circuits of the property: lint-clean (blackbox pins may be open), names usable as identifier tokens,
@@ -45,6 +45,22 @@ Theorem C03_roundtrip_gate_partial : ∀ k st t f r st' n, t ∈ gate_types → 
   st.1 ⊆ st'.1 ∧ ∀ v, ties_ok k st.1 → consistent st'.1 v → v n = gate_val t v (list_to_set (f :: r)).
 Proof. exact roundtrip_gate_expr. Qed.
 Print Assumptions C03_roundtrip_gate_partial.
+(* roundtrip_identical, one statement of the primitive style: reading `<type> g_k(n, f1, .., fk)` (distinct operands, as the
+   writer emits them) makes n a node of exactly that type over exactly these operands, creates placeholder buffers for
+   operands that are no nodes yet and touches nothing else.  Missing for the full statement: the fold over all statements
+   (placeholders are retyped by their own statement, inputs keep their type), success of every add/connect check for
+   lint-clean circuits, and the final comparison of the two maps *)
+Theorem C03_prim_instance_exact_partial : ∀ k t g nm n fi g', prim_instance k t g (nm, CPos (n :: fi)) = Ok g' → NoDup fi → fi ≠ [] →
+  g' !! n = Some (mk_node t false (fanin g n ∪ list_to_set fi)) ∧
+  ∀ x, x ≠ n → g' !! x = g !! x ∨ (g !! x = None ∧ x ∈ fi ∧ g' !! x = Some (mk_node Buf false ∅)).
+Proof. exact prim_instance_exact. Qed.
+Print Assumptions C03_prim_instance_exact_partial.
+(* the interface of every successful read-back is the declared one (C02_read_io) *)
+Theorem C03_read_io : ∀ rsv bbs m C,
+  Run_C02.in_subset bbs m = true → list_to_set (module_ids m) ⊆ rsv → read rsv bbs m = Ok C →
+  inputs (c_g C) = list_to_set (decl_inputs m) ∧ outputs (c_g C) = list_to_set (decl_outputs m).
+Proof. exact read_io. Qed.
+Print Assumptions C03_read_io.
 (* the reader never accepts a module whose port list disagrees with its declarations (shared with C02) *)
 Theorem C03_port_mismatch_rejected : ∀ rsv bbs m C, read rsv bbs m = Ok C → ports_match m = true.
 Proof. exact read_rejects_port_mismatch. Qed.
